@@ -2,7 +2,6 @@
 spec/lend/Lend.tla (x/lend handlers transcribed, interest as environment) ; MC_Lend (bounded exhaustive profiles) ;
 every model transition executed on the real msg servers (graph walk) ; seeded multi-user drives with time gaps, price
 moves, V2 liquidation and auction close ; every recorded node judged by TLC (Trace_Lend.tla)."""
-import json, os, re
 import vlib
 
 META = dict(
@@ -22,87 +21,10 @@ META = dict(
     design_ref="4 C08",
 )
 
-JAR_OK = "Model checking completed. No error has been found."
-UNPREDICTED = ["Tick", "Bid"]
-
-
-def mc_cfg(wd, name, profile, steps, emit, props):
-    with open(os.path.join(wd, name), "w") as f:
-        f.write('SPECIFICATION Spec\nCONSTANTS InitFile = "lend_init.json" Profile = "%s" MaxSteps = %d Emit = %s\n'
-                'INVARIANTS InvBooksLend InvBooksBorrow NonNeg\nPROPERTIES %s\nCHECK_DEADLOCK FALSE\n'
-                % (profile, steps, "TRUE" if emit else "FALSE", " ".join(props)))
 
 
 def run(c):
-    c.stage("lend")
-    quick = c.tier == "quick"
-    vlib.run_vh(["lend", "--init", os.path.join(c.wd, "lend_init.json")], timeout=300)
-    profiles = [("same", 4), ("cross", 4), ("multi", 4), ("twopool", 5)] if quick else [("same", 6), ("cross", 5), ("multi", 5), ("twopool", 6)]
-    gen = dist = 0
-    logs = []
-    # ---- model runs: C08 on the model + transition dump ----
-    for prof, steps in profiles:
-        cfg = "MC_Lend_%s%d.cfg" % (prof, steps)
-        mc_cfg(c.wd, cfg, prof, steps, True, ["PropLtv", "PropLtvOpenBridged", "PropPoolHeld"])
-        tfile = os.path.join(c.wd, "T_%s.txt" % prof)
-        r = vlib.model_check(c.wd, "MC_Lend", cfg, workers=1, tfile=tfile, timeout=2400)
-        gen += r["generated"]
-        dist += r["distinct"]
-        logs.append((prof, tfile))
-    # the named deviation (draw on a bridged position ignores the transit ratio) must show up as a model counterexample
-    mc_cfg(c.wd, "MC_Lend_dev.cfg", "cross", 4, False, ["PropLtvDrawBridged"])
-    dev = vlib.run_tlc(c.wd, "MC_Lend", "MC_Lend_dev.cfg", workers=4, timeout=900)
-    dev_cex = "Action property PropLtvDrawBridged is violated" in dev["out"]
-    if not dev_cex and not dev.get("ok"):
-        vlib.log(vlib.tlc_error_text(dev["out"]))
-        raise vlib.NoVerdict("model run for the named deviation failed")
-
-    # ---- real code: walk every model transition, then seeded drives ----
-    allnodes = 0
-    stats = {}
-    tstates = 0
-    samples = []
-    runs_s, runs_b, steps_d = (8, 3, 160) if quick else (120, 40, 300)
-    jobs = [(prof, ["--trans", tf, "--runs-small", "0", "--runs-big", "0"]) for prof, tf in logs]
-    jobs.append(("drive", ["--runs-small", str(runs_s), "--runs-big", str(runs_b), "--steps", str(steps_d)]))
-    walked = 0
-    for name, args in jobs:
-        logf = os.path.join(c.wd, "lend_%s.ndjson" % name)
-        out = vlib.run_vh(["lend", "--out", logf, "--seed", str(c.seed)] + args, timeout=3000)
-        m = re.search(r"walked=(\d+)", out)
-        walked += int(m.group(1)) if m else 0
-        dst = os.path.join(c.wd, "log.ndjson")
-        if os.path.lexists(dst):   # vlib.trace_check only removes a link whose target still exists
-            os.remove(dst)
-        tr = vlib.trace_check(c.wd, "Trace_Lend", "Trace_Lend.cfg", logf, workers=4, timeout=3000)
-        c.judge(tr, logf)
-        for k, v in tr["stats"].items():
-            stats[k] = stats.get(k, 0) + v
-        tstates += tr.get("distinct", 0)
-        allnodes += tr["stats"].get("nodes", 0)
-        nodes = vlib.read_log(logf)
-        pick = [n for n in nodes if n["a"] in ("Borrow", "Draw", "Withdraw") and n["res"].get("ok")][:1] or nodes[-1:]
-        for n in pick:
-            samples.append(dict(run=n["run"], a=n["a"], args=n["args"], res=n["res"], path_len=len(vlib.path_to(nodes, n["id"]))))
-        del nodes
-        os.remove(logf)
-    c.samples = samples
-    need = ["released", "releasedBridged", "releasedWithInterest", "atBoundary", "rejectedLoans", "withdrawnWithPledge", "repaid",
-            "handedOver", "rewardPaid", "stableBorrowed", "walked", "confOkSteps", "drawn"]
-    zero = [k for k in need if stats.get(k, 0) == 0]
-    if zero and not c.violations:   # a violation found on real states stands even if another antecedent was not exercised
-        raise vlib.NoVerdict("vacuous run, antecedent counters are 0: %s" % zero)
-    return c.finish("model_checking", dict(
-        states=dist, transitions=gen, traces_validated_against_impl=allnodes,
-        model_configs=["%s,MaxSteps=%d" % x for x in profiles], transitions_executed_on_impl=walked, trace_states=tstates,
-        antecedents=stats, exhaustive=True, unpredicted_actions=UNPREDICTED,
-        unpredicted_fields=["interest / reward amounts (environment, taken from the log)", "fractional interest carry", "cToken supply"],
-        model_counterexample_named_deviation=dict(property="PropLtvDrawBridged", found=dev_cex,
-                                                   note="draw on a cross-pool position applies the collateral asset's ratio alone; reproduced on the real code by formula C08_LtvDrawBridged"),
-        rule="every transition of the bounded profiles (same-pool, cross-pool, multi-pair; 2 users, amounts at the exact LTV boundary -1/0/+1, "
-             "interest injection, price moves, foreign-owner attempts) is executed once on the real msg servers; plus seeded drives "
-             "(3 users, 2 pools, 11 pairs, mixed decimals, time gaps up to a year, price moves, V2 liquidation + auction bids); each node is a TLC state of Trace_Lend"),
-        assumptions=["prices are written with MarketKeeper.SetTwa (band oracle stubbed: validation result true, no request pending)",
-                     "amounts stay below 2^31 and collateral value * ltv denominators below 10^18, where the code's 18-decimal quotient decides exactly like the rational inequality",
-                     "asset rate parameters have non-zero stable-rate parameters (the all-zero case divides by zero in interest calculation: C15/C18 matter, reported separately)",
-                     "a block whose hooks panic is not judged (it would halt the chain; C15)"])
+    import os, sys
+    sys.path.insert(0, os.path.dirname(os.path.abspath(__file__)))
+    import _lend
+    return _lend.run(c)
